@@ -187,6 +187,32 @@ VARIANTS = [
     V('c20-new-type-in-func', 'C20', 'bad', 'R20.5', G, "        return token.ttype == T.Keyword.TZCast", "        return token.ttype == T.Keyword.TZCast or token.ttype == T.Keyword.Join"),
     V('c20-clear-keeps-keywords', 'C20', 'bad', 'R20.6', L, "        self._SQL_REGEX = []\n        self._keywords = []", "        self._SQL_REGEX = []"),
     V('c20-ok-rlock', 'C20', 'ok', '', L, "    _lock = Lock()\n", "    _lock = Lock()  # class-level, created at import\n"),
+    V('c20-closure-counter', 'C20', 'bad', 'R20.8', U, "    def wrap(f):\n        def wrapped_f(tlist):\n", "    def wrap(f):\n        calls = [0]\n\n        def wrapped_f(tlist):\n            calls[0] += 1\n"),
+    V('c20-closure-cache', 'C20', 'bad', 'R20.8', U, "    def wrap(f):\n        def wrapped_f(tlist):\n", "    def wrap(f):\n        seen = set()\n\n        def wrapped_f(tlist):\n            seen.add(id(tlist))\n"),
+    V('c20-func-attr', 'C20', 'bad', 'R20.8', U, "            f(tlist)\n\n        return wrapped_f", "            f(tlist)\n            wrapped_f.last = tlist\n\n        return wrapped_f"),
+    V('c20-shared-kwlist', 'C20', 'bad', 'R20.6', L, "        self._SQL_REGEX = []\n        self._keywords = []", "        self._SQL_REGEX = []\n        self._keywords = keywords.SQL_REGEX"),
+    V('c20-ok-closure-read', 'C20', 'ok', '', U, "    def wrap(f):\n        def wrapped_f(tlist):\n", "    def wrap(f):\n        skip = cls\n\n        def wrapped_f(tlist):\n            skip\n"),
+    # ---- rules added in round 3
+    V('c13-recurse-depth', 'C13', 'bad', 'R13.5', U, "        def wrapped_f(tlist):\n            for sgroup in tlist.get_sublists():\n                if not isinstance(sgroup, cls):\n                    wrapped_f(sgroup)", "        def wrapped_f(tlist, depth=0):\n            for sgroup in tlist.get_sublists():\n                if not isinstance(sgroup, cls) and depth < 50:\n                    wrapped_f(sgroup, depth + 1)"),
+    V('c13-recurse-skip-apply', 'C13', 'bad', 'R13.5', U, "                    wrapped_f(sgroup)\n            f(tlist)", "                    wrapped_f(sgroup)\n            if len(tlist.tokens) < 10000:\n                f(tlist)"),
+    V('c13-sublists-filter', 'C13', 'bad', 'R13.5', S, "            if token.is_group:\n                yield token", "            if token.is_group and len(token.tokens) > 1:\n                yield token"),
+    V('c13-ok-recurse-rename', 'C13', 'ok', '', U, "            for sgroup in tlist.get_sublists():\n                if not isinstance(sgroup, cls):\n                    wrapped_f(sgroup)", "            for child in tlist.get_sublists():\n                if isinstance(child, cls):\n                    continue\n                wrapped_f(child)"),
+    V('c08-idcase-subtypes', 'C08', 'bad', 'R8.2', FT, "            if ttype in self.ttype and value.strip()[0] != '\"':", "            if any(ttype in t for t in self.ttype) and value.strip()[0] != '\"':"),
+    V('c08-idcase-quote-dropped', 'C08', 'bad', 'R8.2', FT, "            if ttype in self.ttype and value.strip()[0] != '\"':", "            if ttype in self.ttype:"),
+    V('c08-ok-helper', 'C08', 'ok', '', FT, "    def process(self, stream):\n        for ttype, value in stream:\n            if ttype in self.ttype and value.strip()[0] != '\"':", "    def _wanted(self, ttype, value):\n        return ttype in self.ttype and value.strip()[0] != '\"'\n\n    def process(self, stream):\n        for ttype, value in stream:\n            if self._wanted(ttype, value):"),
+    V('c19-cli-default-none', 'C19', 'bad', 'R19.7', C, "        dest='comma_first',\n        default=False,", "        dest='comma_first',\n        default=None,"),
+    V('c19-cli-default-differs', 'C19', 'bad', 'R19.7', C, "        dest='wrap_after',\n        default=0,", "        dest='wrap_after',\n        default=80,"),
+    V('c19-ok-setdefault', 'C19', 'ok', '', FM, "    options['comma_first'] = comma_first", "    options.update(comma_first=comma_first)"),
+    V('c10-blank-outside-loop', 'C10', 'bad', 'R10.6', FO, "        ttypes = (T.Operator, T.Comparison)\n        tidx, token = tlist.token_next_by(t=ttypes)\n        while token:\n            nidx, next_ = tlist.token_next(tidx, skip_ws=False)\n            if next_ and next_.ttype != T.Whitespace:\n                tlist.insert_after(tidx, sql.Token(T.Whitespace, ' '))", "        ttypes = (T.Operator, T.Comparison)\n        blank = sql.Token(T.Whitespace, ' ')\n        tidx, token = tlist.token_next_by(t=ttypes)\n        while token:\n            nidx, next_ = tlist.token_next(tidx, skip_ws=False)\n            if next_ and next_.ttype != T.Whitespace:\n                tlist.insert_after(tidx, blank)"),
+    V('c10-ok-local-blank', 'C10', 'ok', '', FO, "            if next_ and next_.ttype != T.Whitespace:\n                tlist.insert_after(tidx, sql.Token(T.Whitespace, ' '))", "            if next_ and next_.ttype != T.Whitespace:\n                blank = sql.Token(T.Whitespace, ' ')\n                tlist.insert_after(tidx, blank)"),
+    V('c17-classify-before-reset', 'C17', 'bad', 'R17.5', SP, "            if self.consume_ws and ttype not in EOS_TTYPE:\n                yield sql.Statement(self.tokens)\n\n                # Reset filter and prepare to process next statement\n                self._reset()\n\n            # Change current split level (increase, decrease or remain equal)\n            self.level += self._change_splitlevel(ttype, value)", "            change = self._change_splitlevel(ttype, value)\n            if self.consume_ws and ttype not in EOS_TTYPE:\n                yield sql.Statement(self.tokens)\n\n                # Reset filter and prepare to process next statement\n                self._reset()\n\n            # Change current split level (increase, decrease or remain equal)\n            self.level += change"),
+    V('c17-ok-classify-local', 'C17', 'ok', '', SP, "            self.level += self._change_splitlevel(ttype, value)", "            change = self._change_splitlevel(ttype, value)\n            self.level += change"),
+    V('c15-raise-limit', 'C15', 'bad', 'R15.4', G, "def group(stmt):\n", "def group(stmt):\n    import sys\n    sys.setrecursionlimit(max(sys.getrecursionlimit(), 5000))\n"),
+    V('c14-shared-default-list', 'C14', 'bad', 'R14.3', L, "        self._SQL_REGEX = []\n        self._keywords = []", "        self._SQL_REGEX = []\n        self._keywords = keywords.SQL_REGEX"),
+    V('c16-runtime-rule', 'C16', 'bad', 'R16.4', L, "        self._keywords.append(keywords)", "        self._keywords.append(keywords)\n        self._SQL_REGEX.insert(0, (re.compile('|'.join(map(re.escape, keywords)), FLAGS).match, tokens.Keyword))"),
+    V('c12-quotes-regex-no-dotall', 'C12', 'bad', 'R12.1', U, "    if val[0] in ('\"', \"'\", '`') and val[0] == val[-1]:\n        val = val[1:-1]\n    return val", "    m = re.match(r'^([\\'\"`])(.*)\\1$', val)\n    return m.group(2) if m else val"),
+    V('c12-ok-quotes-regex-dotall', 'C12', 'ok', '', U, "    if val[0] in ('\"', \"'\", '`') and val[0] == val[-1]:\n        val = val[1:-1]\n    return val", "    m = re.match(r'^([\\'\"`])(.*)\\1$', val, re.DOTALL) if len(val) > 1 else None\n    return m.group(2) if m else val"),
+    V('c03-strip-bom', 'C03', 'bad', 'R3.0', FS, "            stream = lexer.tokenize(sql, encoding)", "            if isinstance(sql, str):\n                sql = sql.lstrip('\\ufeff')\n            stream = lexer.tokenize(sql, encoding)"),
 ]
 
 WHOLE_FILE = {
